@@ -126,9 +126,37 @@ func (g *PG) Expr(depth int, sc scope) types.MalType {
 		}
 		return g.Lit()
 	}
-	switch g.R.Intn(17) {
+	switch g.R.Intn(20) {
 	case 16:
 		return g.macroBuiltCall(depth, sc)
+	case 17: // the callee is evaluated FIRST, then the arguments left to right: a head with an effect, an unbound head, an argument that rebinds the head
+		switch g.R.Intn(3) {
+		case 0:
+			g.tag("call-effectful-head")
+			return L(Call("do", Call("trace!", Kw("head")), S(g.R.Pick([]string{"list", "+", "vector"}))), Call("trace!", 1), Call("trace!", 2))
+		case 1:
+			g.tag("call-unbound-head-traced-args")
+			return Call("undefined-"+g.fresh("h"), Call("trace!", 1), g.Expr(depth-1, sc))
+		default:
+			g.tag("call-argument-rebinds-head")
+			f := g.fresh("w")
+			return Call("do", Call("def", S(f), Call("fn", V(S("x")), Call("list", Kw("old"), S("x")))),
+				Call(f, Call("do", Call("def", S(f), Call("fn", V(S("x")), Call("list", Kw("new"), S("x")))), 7)))
+		}
+	case 18: // a name resolves to its innermost binding AT THE TIME OF THE LOOKUP: a closure made in a let, called, the free global rebound, called again
+		g.tag("closure-sees-rebinding-after-first-call")
+		x, f, k := g.fresh("gx"), g.fresh("gf"), g.fresh("k")
+		first := g.Int(depth-1, sc)
+		return Call("do", Call("def", S(x), first),
+			Call("def", S(f), Call("let", V(S(k), 10), Call("fn", V(), Call("list", S(x), S(k))))),
+			Call("list", Call(f), Call("do", Call("def", S(x), Kw("rebound")), Call(f)), Call(f)))
+	case 19: // same through a function-returning function, the rebound name being a function
+		g.tag("closure-sees-redefined-helper")
+		h, mk, api := g.fresh("hh"), g.fresh("mk"), g.fresh("api")
+		return Call("do", Call("def", S(h), Call("fn", V(S("n")), Call("list", Kw("v1"), S("n")))),
+			Call("def", S(mk), Call("fn", V(S("k")), Call("fn", V(S("n")), Call("list", S("k"), Call(h, S("n")))))),
+			Call("def", S(api), Call(mk, 100)),
+			Call("list", Call(api, 1), Call("do", Call("def", S(h), Call("fn", V(S("n")), Call("list", Kw("v2"), S("n")))), Call(api, 1))))
 	case 0:
 		return g.Lit()
 	case 1:
